@@ -51,7 +51,10 @@ use futures::stream::{Stream};
 use futures::task;
 use futures::task::{Poll, Context};
 
+#[cfg(not(logicalshift_desync_verif))]
 use std::sync::*;
+#[cfg(logicalshift_desync_verif)]
+use desync_verif_rt::sync::*;
 use std::pin::{Pin};
 use std::collections::VecDeque;
 
